@@ -109,3 +109,4 @@ LEVEL = {
 CFG['rule'] = CFG['rule'] + ' ' + 'Additions: documents carry, in half of the cases where nested.* is present, a non-indexed sibling map nested.m = {j, k}; four more select lists name a leaf before its ancestor ("nested.m,nested,i", "nested.n,i,nested", "nested.m.k,nested.m", "nested.m.k,nested"); sort keys may lie below a selected parent.'
 
 CFG['rule'] = CFG['rule'] + ' ' + 'Every standalone ranking leaf is also judged on its own: hybrid = weight x score (text) / -(weight x distance) (vectors) for the weight its request carries (code 180).'
+CFG['rule'] = CFG['rule'] + ' ' + 'A third of the integer values are adjacent integers beyond 2^53 (nanosecond timestamps, 64-bit ids, values next to the int64 extremes).'
